@@ -237,16 +237,19 @@ Boolean FloatRangeCheck(Double Wert, FloatType Typ) {
 }
 
 Boolean SingleBit(LargeInt Inp, LargeInt* Erg) {
+    /* shift logically: the sign bit is a single bit, too */
+    LargeWord Val = (LargeWord)Inp;
+
     *Erg = 0;
     do {
-        if (!Odd(Inp)) {
+        if (!Odd(Val)) {
             (*Erg)++;
         }
-        if (!Odd(Inp)) {
-            Inp = Inp >> 1;
+        if (!Odd(Val)) {
+            Val = Val >> 1;
         }
-    } while ((*Erg != LARGEBITS) && (!Odd(Inp)));
-    return (*Erg != LARGEBITS) && (Inp == 1);
+    } while ((*Erg != LARGEBITS) && (!Odd(Val)));
+    return (*Erg != LARGEBITS) && (Val == 1);
 }
 
 IntType GetSmallestUIntType(LargeWord MaxValue) {
